@@ -118,6 +118,11 @@ pub(crate) const K_FSYNC: u8 = 12; // call_fsync
 pub(crate) const K_GROW_RT: u8 = 13; // grow_reftable
 pub(crate) const K_ISNEW: u8 = 15; // cluster_is_new(cluster number)
 pub(crate) const K_ADD_SLICE: u8 = 16; // add_rb_slice(rt entry, key, slice_off)
+pub(crate) const K_LEAF_DATA: u8 = 20; // do_read_data_file / do_write_data_file
+pub(crate) const K_LEAF_ZERO: u8 = 21; // do_read_zero
+pub(crate) const K_LEAF_BACKING: u8 = 22; // do_read_backing
+pub(crate) const K_LEAF_COMPRESSED: u8 = 23; // do_read_compressed
+pub(crate) const K_LEAF_COW: u8 = 24; // do_write_cow
 pub(crate) const K_TRYALLOC: u8 = 14; // try_alloc_from_rb_slice (off,len = granted run; len 0 = None)
 
 const NOREC: Rec = Rec { kind: K_NONE, entry: 0, off: 0, len: 0, buf_start: 0, flags: 0 };
@@ -462,6 +467,36 @@ impl KEnv {
         let n = buf.len();
         buf[..].copy_from_slice(&src[..n]);
         Ok(n)
+    }
+    // per-cluster leaf operations of the read / write dispatch (recorded)
+    pub fn k_do_read_data_file(&self, m: Mapping, off_in_cls: usize, buf: KBuf) -> Qcow2Result<usize> {
+        self.rec(Rec { kind: K_LEAF_DATA, entry: m.cluster_offset.unwrap_or(u64::MAX), off: off_in_cls as u64, len: buf.len, ..NOREC });
+        core::mem::forget(m);
+        Ok(buf.len)
+    }
+    pub fn k_do_read_zero(&self, buf: KBuf) -> Qcow2Result<usize> {
+        self.rec(Rec { kind: K_LEAF_ZERO, len: buf.len, ..NOREC });
+        Ok(buf.len)
+    }
+    pub fn k_do_read_backing(&self, m: Mapping, off_in_cls: usize, buf: KBuf) -> Qcow2Result<usize> {
+        self.rec(Rec { kind: K_LEAF_BACKING, entry: m.cluster_offset.unwrap_or(u64::MAX), off: off_in_cls as u64, len: buf.len, ..NOREC });
+        core::mem::forget(m);
+        Ok(buf.len)
+    }
+    pub fn k_do_read_compressed_kb(&self, m: Mapping, off_in_cls: usize, buf: KBuf) -> Qcow2Result<usize> {
+        self.rec(Rec { kind: K_LEAF_COMPRESSED, entry: m.cluster_offset.unwrap_or(u64::MAX), off: off_in_cls as u64, len: buf.len,
+                       buf_start: m.compressed_length.unwrap_or(0), ..NOREC });
+        core::mem::forget(m);
+        Ok(buf.len)
+    }
+    pub fn k_do_write_data_file(&self, virt_off: u64, m: &Mapping, cow: Option<&Mapping>, buf: KBuf) -> Qcow2Result<()> {
+        self.rec(Rec { kind: K_LEAF_DATA, entry: m.cluster_offset.unwrap_or(u64::MAX), off: virt_off, len: buf.len,
+                       flags: cow.is_some() as u32, ..NOREC });
+        Ok(())
+    }
+    pub fn k_do_write_cow(&self, off: u64, m: &Mapping, buf: KBuf) -> Qcow2Result<()> {
+        self.rec(Rec { kind: K_LEAF_COW, entry: m.cluster_offset.unwrap_or(u64::MAX), off, len: buf.len, ..NOREC });
+        Ok(())
     }
     /// the backend's fallocate: fails or succeeds (environment decides)
     pub fn k_file_fallocate(&self, off: u64, len: usize, flags: u32) -> KResult<()> {
